@@ -200,6 +200,63 @@ theorem decision_total (g : PGraph) (e : Entry) (he : e ∈ (buildModel genFacts
   | intro => simp [adaptBestEffort]
   | func d v => simp [adaptBestEffort]
 
+/-- A shipped constructor is sent to the converter only when the schema in force at the imported
+    version is not the one it was written for, and then with exactly the import as target. -/
+theorem convert_only_when_needed (g : PGraph) (e : Entry) (he : e ∈ (buildModel genFacts g).main)
+    (hok : NodeOk e.node) (s t : Nat) (hc : e.decision = .convert s t) :
+    ∃ d o, e.node.kind = .op d o s ∧ lookup d (buildModel genFacts g).imports = some t ∧
+      genSchemaSince d o t ≠ some s := by
+  obtain ⟨hdec, hdom, hag⟩ := entry_invariant g e he
+  have hag' : ∀ d, lookup d e.opsets = lookup d (buildModel genFacts g).imports := hag
+  obtain ⟨ops, node, dec⟩ := e
+  simp only at hdec hdom hok hc hag' ⊢
+  subst hdec
+  obtain ⟨k, np, c, subs, i⟩ := node
+  cases k with
+  | op d o v =>
+    simp only [NodeOk, PNode.kind, PNode.nProtos, PNode.concrete, PNode.subs] at hok
+    obtain ⟨h1, h2, h3⟩ := hok
+    have hd := shipped_domain h3
+    have hf : fold d = d := fold_eq_self hd
+    have hfix := shipped_since_fix h3
+    obtain ⟨tg, ht, _⟩ := hdom (d, v) List.mem_cons_self
+    simp only [hf] at ht
+    subst h1
+    unfold adaptBestEffort at hc
+    simp only [hf, ht] at hc
+    by_cases hsub : subs.isEmpty = true
+    · by_cases hvt : v = tg
+      · simp [hsub, hvt] at hc
+      · by_cases hsame : sameSchema genFacts d o v tg = true
+        · simp [hsub, hvt, hsame] at hc
+        · by_cases hdd : d = ""
+          · subst hdd
+            cases c with
+            | false => simp [hsub, hvt, hsame] at hc
+            | true =>
+              simp [hsub, hvt, hsame] at hc
+              obtain ⟨rfl, rfl⟩ := hc
+              refine ⟨"", o, rfl, by rw [← hag' ""]; exact ht, ?_⟩
+              intro hq
+              apply hsame
+              unfold sameSchema
+              simp only [genFacts]
+              rw [hfix, hq]
+              simp
+          · simp [hsub, hvt, hsame, hdd] at hc
+    · simp [hsub] at hc
+  | inline imps hd =>
+    simp only [adaptBestEffort] at hc
+    cases hl : lookup "" ops with
+    | none => rw [hl] at hc; cases hc
+    | some tg =>
+      rw [hl] at hc
+      cases hd <;> simp at hc
+      split at hc <;> cases hc
+  | internal => simp [adaptBestEffort] at hc
+  | intro => simp [adaptBestEffort] at hc
+  | func d v => simp [adaptBestEffort] at hc
+
 /-! ## the statement without the exclusions is false of the code: witnesses -/
 
 open Generated.OpsetFacts in
